@@ -128,14 +128,16 @@ def judge(d):
                                 err=float(err.max())))
         # exact block
         c = info[i]["c"]
-        if d["mols"][i]["rot"]["cls"] == "identity" and all(s % 2 for s in shape) and np.all(np.abs(c - np.round(c)) < 1e-6):
+        if d["mols"][i]["rot"]["cls"] == "identity" and all(s % 2 for s in shape) and np.all(np.abs(c - np.round(c)) < 2e-5):
             ci = np.round(c).astype(int)
             lo = ci - (np.asarray(shape) - 1) // 2
             hi = lo + np.asarray(shape)
             if np.all(lo >= 0) and np.all(hi <= T):
                 block = tomo[lo[0]:hi[0], lo[1]:hi[1], lo[2]:hi[2]]
                 e = float(np.abs(sub - block).max())
-                if not e <= 1e-5 * rng:
+                # exact for exactly integer coordinates; float32 pos/scale may be ~1e-6 px off for non-dyadic scales
+                exact_tol = 1e-5 if np.all(np.abs(c - np.round(c)) < 1e-9) else (0.0 if order == 0 else 2e-4)
+                if not e <= exact_tol * rng + (1e-12 if order else 0.0):
                     out.append(viol("C02/exact-block", f"{tag}: identity/integer/odd subtomogram differs from the tomogram block by {e:.3g}"))
     # routes
     for i in range(n):
@@ -230,7 +232,7 @@ def cases(draw):
     chunks = None
     if draw(st.booleans()):
         chunks = draw(gen.chunkings(tshape, min_chunk=2))
-    scale = draw(st.sampled_from([1.0, 0.5, 2.0])) if exact else draw(gen.scales)
+    scale = draw(st.sampled_from([1.0, 0.5, 2.0, 0.3, 1.1, 0.2634, 1.37, 3.3])) if exact else draw(gen.scales)
     return {"tshape": tshape, "seed": draw(gen.seeds), "sigma": draw(st.sampled_from([0.6, 1.0, 1.5])),
             "shape": shape, "order": order, "scale": scale, "corner_safe": draw(st.booleans()),
             "mols": mols, "chunks": chunks, "kind": kind, "exact": exact}
